@@ -55,6 +55,13 @@ func (rule *RuleEvents) checkEvent(event Event) {
 
 // https://docs.github.com/en/actions/learn-github-actions/workflow-syntax-for-github-actions#onschedule
 func (rule *RuleEvents) checkCron(spec *String) {
+	// The cron parser slices the spec at the first space after a "TZ=" or "CRON_TZ=" prefix without checking that
+	// there is one: "TZ=UTC" makes it panic
+	if v := spec.Value; (strings.HasPrefix(v, "TZ=") || strings.HasPrefix(v, "CRON_TZ=")) && !strings.Contains(v, " ") {
+		rule.Errorf(spec.Pos, "invalid CRON format %q in schedule event: no schedule follows the time zone", v)
+		return
+	}
+
 	p := cron.NewParser(cron.Minute | cron.Hour | cron.Dom | cron.Month | cron.Dow)
 	sched, err := p.Parse(spec.Value)
 	if err != nil {
